@@ -694,11 +694,66 @@ pub const FILLERS: &[&str] = &[
     "struct S { a: u8 }",
 ];
 
+/// Lines of real code usable as neutral filler: no macro invocation, balanced
+/// plain string quotes, no comment delimiters, no raw strings / char-literal quotes.
+pub fn corpus_filler_lines() -> &'static Vec<String>
+{
+    static LINES: std::sync::OnceLock<Vec<String>> = std::sync::OnceLock::new();
+    LINES.get_or_init(|| {
+        let mut out: Vec<String> = Vec::new();
+        for (i, (_, bytes)) in crate::gen_raw::corpus().iter().enumerate()
+        {
+            if i % 3 != 0
+            {
+                continue;
+            }
+            if let Ok(t) = std::str::from_utf8(bytes)
+            {
+                for line in t.lines().step_by(7)
+                {
+                    let l = line.trim_end();
+                    if l.len() < 3 || l.len() > 110
+                    {
+                        continue;
+                    }
+                    let quotes = l.matches('"').count();
+                    if l.contains('!')
+                        || l.contains("/*")
+                        || l.contains("*/")
+                        || l.contains("//")
+                        || l.contains('\\')
+                        || l.contains("r#")
+                        || l.contains('\'')
+                        || quotes % 2 != 0
+                        || l.contains("breadlog")
+                    {
+                        continue;
+                    }
+                    // must not end in an identifier character glued to what follows? (a newline always follows)
+                    out.push(l.to_string());
+                    if out.len() >= 1500
+                    {
+                        return out;
+                    }
+                }
+            }
+        }
+        if out.is_empty()
+        {
+            out.push("let y = 2;".to_string());
+        }
+        out
+    })
+}
+
 pub fn file_spec(cfg: &ConfigSpec, p: &StmtParams, max_items: usize, decoys: bool) -> BoxedStrategy<FileSpec>
 {
     let mut sp = p.clone();
     sp.n_macros = cfg.macros.len();
     let st = stmt(&sp);
+    let real_lines = corpus_filler_lines();
+    let n_real = real_lines.len();
+    let real = (0..n_real).prop_map(move |i| Item::Filler(real_lines[i].clone()));
     let item: BoxedStrategy<Item> = if decoys
     {
         prop_oneof![
@@ -706,6 +761,7 @@ pub fn file_spec(cfg: &ConfigSpec, p: &StmtParams, max_items: usize, decoys: boo
             4 => decoy(cfg).prop_map(Item::Decoy),
             1 => decoy(cfg).prop_map(Item::DecoySameLine),
             2 => select(FILLERS).prop_map(|s| Item::Filler(s.to_string())),
+            1 => real,
             1 => (1usize..3).prop_map(Item::Blank),
         ]
         .boxed()
@@ -715,6 +771,7 @@ pub fn file_spec(cfg: &ConfigSpec, p: &StmtParams, max_items: usize, decoys: boo
         prop_oneof![
             6 => st.prop_map(Item::Stmt),
             2 => select(FILLERS).prop_map(|s| Item::Filler(s.to_string())),
+            1 => real,
             1 => (1usize..3).prop_map(Item::Blank),
         ]
         .boxed()
